@@ -61,6 +61,12 @@ def analysis(c):
     return mism, rest_ok
 
 
+def unusual(s):
+    """a C0 control, DEL, a C1 control, or a format / non-character / private-use code point"""
+    return any(ord(ch) < 0x20 or 0x7f <= ord(ch) <= 0x9f or ord(ch) in (0xad, 0x200b, 0x202e, 0x2028, 0x2029, 0xfeff, 0xfffd, 0xfffe)
+               or ord(ch) >= 0xe0000 for ch in s)
+
+
 def only_class(cls):
     def pred(c):
         mism, rest_ok = analysis(c)
@@ -101,6 +107,12 @@ class C12(Prop):
             "frame, and then half of the scripted NOTICEs are padded to the limit -1/0/+1/+2/+200 bytes; 9% of the cases contain one frame of a class that hits a defect known on the "
             "pinned tree (kind outside 0..65535, content with < > & U+2028 U+2029, white space before '['); the handler replies "
             "to about half of the messages with 1..3 scripted server messages of all seven types (Unicode, HTML characters); "
+            "a quarter of the client messages of every class are sent fragmented (TEXT/BINARY frame with fin=0 per piece, 1..3 cuts anywhere "
+            "in the payload including its ends and the inside of a multi-byte character, then an empty CONTINUATION frame with fin=1); "
+            "subscription ids chosen by the client (20%) and the free strings of the handler's messages (25-40%: subscription id of "
+            "EOSE/EVENT/COUNT/CLOSED, NOTICE text, OK/CLOSED message, AUTH challenge) carry unusual but legal characters (NUL and other "
+            "C0 controls with and without a short JSON escape, DEL, C1 controls, soft hyphen, zero-width/bidi format characters, "
+            "U+2028/9, BOM, U+FFFD, the non-character U+FFFE, non-printing and private-use code points beyond the BMP); "
             "60% of the cases run in lock-step (send, wait for the effect), 40% pipelined; a case is non-trivial when, final "
             "frame apart, at least one frame was forwarded and one rejected; distinct = distinct frame payload sequences")
     trusted_base = COMMON_TRUSTED + [
@@ -145,7 +157,7 @@ class C12(Prop):
             clist(c.get("client") or [], lambda x: citem(I, x), "citem"))
 
     def _payloads(self, c):
-        return hashlib.sha1(json.dumps([[f["bin"], f["b64"]] for f in c["frames"]]).encode()).hexdigest()
+        return hashlib.sha1(json.dumps([[f["bin"], f["b64"], f.get("frag") or []] for f in c["frames"]]).encode()).hexdigest()
 
     def nontrivial_key(self, c):
         n = len(c["frames"])
@@ -182,6 +194,29 @@ class C12(Prop):
                 c2 = copy.deepcopy(c)
                 c2["frames"][i]["out"] = []
                 yield c2
+        # messages sent in one frame instead of fragments: all of them, then one at a time; then fewer cuts
+        if any(f.get("frag") for f in fs):
+            c2 = copy.deepcopy(c)
+            for f in c2["frames"]:
+                f.pop("frag", None)
+            yield c2
+        for i in range(n):
+            if fs[i].get("frag"):
+                c2 = copy.deepcopy(c)
+                c2["frames"][i].pop("frag", None)
+                yield c2
+                if len(fs[i]["frag"]) > 1:
+                    c2 = copy.deepcopy(c)
+                    c2["frames"][i]["frag"] = fs[i]["frag"][:1]
+                    yield c2
+        # scripted replies one at a time
+        for i in range(n - 1):
+            outs = fs[i].get("out") or []
+            if len(outs) > 1:
+                for j in range(len(outs)):
+                    c2 = copy.deepcopy(c)
+                    c2["frames"][i]["out"] = outs[:j] + outs[j + 1:]
+                    yield c2
         if c.get("mux"):
             yield dict(c, mux=False)
         if 0 < (c.get("maxlen") or 0) < (1 << 20):
@@ -189,15 +224,37 @@ class C12(Prop):
 
     def summarize(self, c):
         return {"lockstep": c.get("lockstep"), "mux": c.get("mux"),
-                "frames": [{"cls": f["cls"], "bin": f["bin"], "txt": f.get("txt", "")[:160], "exp": f["exp"], "obs": f.get("obs"),
+                "frames": [{"cls": f["cls"], "bin": f["bin"], "frag": f.get("frag") or [], "txt": f.get("txt", "")[:160],
+                            "exp": f["exp"], "obs": f.get("obs"),
                             "out": [o["t"] for o in f.get("out") or []]} for f in c["frames"]],
                 "recv": c.get("recv"), "emitted": c.get("emitted"), "client": c.get("client"), "notes": c.get("notes")}
 
     def distribution(self, cases):
         d = {"connections": len(cases), "limit_just_above_longest_frame": 0, "handler_messages_at_or_beyond_limit": 0, "lockstep": 0, "pipelined": 0, "lockstep_degraded_by_timeout": 0, "via_servemux": 0,
              "frames": 0, "frames_forwarded": 0, "rejections_seen": 0, "scripted_messages_emitted": 0,
-             "frames_by_class": {}, "scripted_by_type": {}, "notices_by_text_prefix": {}, "cases_with_notes": 0}
+             "frames_by_class": {}, "scripted_by_type": {}, "notices_by_text_prefix": {}, "cases_with_notes": 0,
+             "messages_sent_fragmented": 0, "fragmented_forwarded": 0, "fragmented_with_an_empty_fragment": 0,
+             "fragmented_by_class": {}, "client_subscription_ids_with_unusual_characters": 0,
+             "scripted_with_unusual_characters_emitted": 0, "scripted_EVENT_with_unusual_subscription_id_emitted": 0}
         for c in cases:
+            got = set(r["f"] for r in c.get("recv") or [])
+            em = set(c.get("emitted") or [])
+            for i, f in enumerate(c["frames"]):
+                if f.get("frag"):
+                    d["messages_sent_fragmented"] += 1
+                    d["fragmented_by_class"][f["cls"]] = d["fragmented_by_class"].get(f["cls"], 0) + 1
+                    if i in got:
+                        d["fragmented_forwarded"] += 1
+                    cuts = [0] + list(f["frag"]) + [len(base64.b64decode(f["b64"]))]
+                    if any(a >= b for a, b in zip(cuts, cuts[1:])):
+                        d["fragmented_with_an_empty_fragment"] += 1
+                if f.get("sub") and unusual(f["sub"]):
+                    d["client_subscription_ids_with_unusual_characters"] += 1
+                for o in f.get("out") or []:
+                    if o["k"] in em and any(unusual(o.get(x) or "") for x in ("a", "b")):
+                        d["scripted_with_unusual_characters_emitted"] += 1
+                        if o["t"] == "EVENT" and unusual(o.get("a") or ""):
+                            d["scripted_EVENT_with_unusual_subscription_id_emitted"] += 1
             d["lockstep" if c.get("lockstep") else "pipelined"] += 1
             if c.get("lockstep") and not c.get("ran_lockstep"):
                 d["lockstep_degraded_by_timeout"] += 1
